@@ -62,6 +62,32 @@ def fn_print(prog, f):
     return hashlib.sha1(("|".join(ext) + "#%d" % nloc).encode()).hexdigest()[:16]
 
 
+def fn_print_deep(prog, f):
+    """fingerprint of a function together with all closures / coroutine bodies nested in it (an edit inside a closure is an edit
+    of the function): per body its relative path, external callees, number of local calls and number of blocks"""
+    import hashlib
+    top = f
+    parts = []
+    todo = [top]
+    seen = set()
+    while todo:
+        g = todo.pop()
+        if g.key in seen:
+            continue
+        seen.add(g.key)
+        ext, nloc = [], 0
+        for c in g.calls:
+            if c.term.get("inlined"):
+                continue
+            if c.local_key() and c.local_key() in prog.fns:
+                nloc += 1
+            else:
+                ext.append(c.path or c.name or "?")
+        parts.append("%s:%s#%d/%d" % (g.key[len(top.key):], "|".join(ext), nloc, len(g.blocks)))
+        todo.extend(prog.children(g))
+    return hashlib.sha1("\n".join(sorted(parts)).encode()).hexdigest()[:16]
+
+
 def normalise_renames(prog, Fn, inv):
     """A function of the reference inventory that no longer exists, while exactly one new function with the same signature exists
     in the same file, was renamed: the new one (and its closures) is given the old path, in every def path and callee path of the
@@ -613,6 +639,7 @@ COMB = {
     ("Option", "or_else"): {0: ("call", 1, None, False), 1: ("pass",)},
     ("Option", "or"): {0: ("arg", 1), 1: ("pass",)},
     ("Option", "is_some_and"): {0: ("const", 0), 1: ("call", 1, None, True)},
+    ("Option", "filter"): {0: ("unit", "None"), 1: ("filter", 1)},
     # bool receivers: variant 0 = false, 1 = true (the switch is on the value itself)
     ("bool", "then"): {0: ("unit", "None"), 1: ("call", 1, "Some", False)},
     ("bool", "then_some"): {0: ("unit", "None"), 1: ("wrap", "Some", ("arg", 1))},
@@ -655,7 +682,7 @@ def desugar_combinators(prog, Fn, F):
             clos = {}
             ok = True
             for v, act in spec.items():
-                if act[0] == "call":
+                if act[0] in ("call", "filter"):
                     a = c.args[act[1]] if act[1] < len(c.args) else None
                     l = (a.get("m") or a.get("c") or [None])[0] if a and "k" not in a else None
                     d = F.single_def(l) if l is not None else None
@@ -706,6 +733,26 @@ def desugar_combinators(prog, Fn, F):
                     stmts.append({"k": "assign", "lhs": dest, "rv": {"k": "use", "a": payload}, "sp": sp})
                 elif act[0] == "const":
                     stmts.append({"k": "assign", "lhs": dest, "rv": {"k": "use", "a": {"k": {"ty": locals_[dest[0]]["ty"], "s": "true" if act[1] else "false", "int": act[1]}}}, "sp": sp})
+                elif act[0] == "filter":
+                    # Some(x) if pred(&x) { Some(x) } else { None }
+                    cf, ops, carg = clos[v]
+                    rl = len(locals_)
+                    locals_.append({"ty": cf.j["locals"][2]["ty"], "inlined": True})
+                    bl = len(locals_)
+                    locals_.append({"ty": cf.j["locals"][0]["ty"], "inlined": True})
+                    stmts.append({"k": "assign", "lhs": [rl], "rv": {"k": "ref", "mut": False, "fake": False, "p": [recv[0], "d:Some", "f:0"]}, "sp": sp})
+                    swb = len(blocks)
+                    blocks.append({"stmts": [], "term": None, "sp": sp, "inlined": True})
+                    nob = len(blocks)
+                    blocks.append({"stmts": [{"k": "assign", "lhs": dest, "rv": {"k": "agg", "ak": "adt", "def": VDEF["None"], "variant": "None", "fields": [], "ops": []}, "sp": sp}],
+                                   "term": {"k": "goto", "t": cont}, "sp": sp, "inlined": True})
+                    yeb = len(blocks)
+                    blocks.append({"stmts": [{"k": "assign", "lhs": dest, "rv": {"k": "use", "a": {"m": [recv[0]]}}, "sp": sp}],
+                                   "term": {"k": "goto", "t": cont}, "sp": sp, "inlined": True})
+                    blocks[swb]["term"] = {"k": "switch", "d": {"m": [bl]}, "ts": [[0, nob]], "o": yeb}
+                    blocks[bi]["term"] = {"k": "call", "f": {"path": cf.path, "crate": F.crate, "full": cf.path, "targs": [], "res": cf.path, "res_crate": F.crate},
+                                          "args": [carg, {"m": [rl]}], "dest": [bl], "t": swb, "fsp": sp}
+                    pending.append((bi, cf, ops))
                 elif act[0] == "call":
                     cf, ops, carg = clos[v]
                     wrapv = act[2]
@@ -998,6 +1045,8 @@ def thread_variants(prog, crate, j, limit=60):
                     if not okd or dl is None or dt.get("k") != "switch" or (dt["d"].get("m") or dt["d"].get("c")) != [dl]:
                         continue
                     tg = dict((v, x) for v, x in dt["ts"])
+                    # `?`: Some / Ok continue (ControlFlow::Continue = 0), None / Err break (= 1) -- not the variant's own index
+                    idx = 0 if V in ("Some", "Ok") else 1
                     target = tg.get(idx)
                     if target is None:
                         if len(tg) == 1 and (1 - idx) in tg:
@@ -1056,6 +1105,7 @@ def expand(prog, Fn, log=None):
     if not os.environ.get("RPX_NO_DESUGAR"):
         finv = inv.get("fns", {})
         cfg_ = getattr(prog, "meta", {}).get("config")
+        deep_cache = {}
         for k in sorted(prog.fns):
             f0 = prog.fns.get(k)
             if f0 is None or f0.crate not in ("redproxy_rs", "milu"):
@@ -1063,9 +1113,12 @@ def expand(prog, Fn, log=None):
             tk = top_key(k)
             top = prog.fns.get(tk)
             ref = finv.get(tk)
-            rp, rn_ = ref_of(ref, "print", cfg_), ref_of(ref, "nblocks", cfg_)
+            rp, rn_, rd_ = ref_of(ref, "print", cfg_), ref_of(ref, "nblocks", cfg_), ref_of(ref, "deep", cfg_)
+            if tk not in deep_cache:
+                deep_cache[tk] = fn_print_deep(prog, top) if top is not None else None
             edited = ref is None or (top is not None and rp and fn_print(prog, top) != rp) or \
-                (rn_ is not None and top is not None and len(prog.body_of(top).blocks) != rn_)
+                (rn_ is not None and top is not None and len(prog.body_of(top).blocks) != rn_) or \
+                (rd_ is not None and deep_cache[tk] is not None and deep_cache[tk] != rd_)
             if not edited and not os.environ.get("RPX_FORCE_DESUGAR"):
                 continue
             try:
